@@ -52,7 +52,7 @@ def step (line : String) : String :=
   match parse line with
   | none => "bad-op"
   | some p =>
-    let o := serve (fun t => t == p.token) (p.token != []) p.flags p.req
+    let o := serve (validateToken p.token) (p.token != []) p.flags p.req
     match o.status, o.route with
     | .s401, _ => "pat=- st=401 calls=0"
     | .s301, _ => "pat=* st=301 calls=0"
@@ -80,6 +80,7 @@ def spec (op : String) (implOut : String) : String :=
   | some p, [pat, st, calls] =>
     let d := strOf (decoded p.req.path)
     let presented := extractToken p.req
+    -- the statement: only the configured token itself authenticates
     let authed := p.token == [] || (presented != [] && presented == p.token)
     let exemptPath := documentedExempt.contains d
     if !authed && !exemptPath && !(pat == "pat=-" && st == "st=401" && calls == "calls=0") then
